@@ -23,13 +23,17 @@ func (pt *WgCounter) Count() int {
 	return int(pt.count.Load())
 }
 
-func (pt *WgCounter) Done() {
+// Done decrements the counter and reports whether this call brought it to zero,
+// so that exactly one caller can perform the group's completion work.
+func (pt *WgCounter) Done() bool {
 	if pt.count.Load() == 0 {
-		return
+		return false
 	}
 
-	pt.count.Add(^uint32(0))
+	last := pt.count.Add(^uint32(0)) == 0
 	pt.wg.Done()
+
+	return last
 }
 
 func (pt *WgCounter) Wait() {
